@@ -365,6 +365,57 @@ func init() {
 			},
 		}
 	}
+	gridCheck("C03", []func() GridDriver{
+		func() GridDriver { return NewAuthGrid(1) }, func() GridDriver { return NewAuthGrid(3) },
+		func() GridDriver { return NewAuthGrid(4) }, func() GridDriver { return NewAuthGrid(7) },
+	}, 40, 200, nil)
+	{
+		inner := Registry["C03"]
+		Registry["C03"] = &Check{
+			Run: func(tier string, seed int64) (code int) {
+				defer func() {
+					if r := recover(); r != nil {
+						sr, ok := r.(SetupRefused)
+						if !ok {
+							panic(r)
+						}
+						// preparing the base state only ever calls methods with exactly their documented
+						// witnesses: a refusal there is the property's "... succeeds" clause failing
+						v := Viol("required-witness-refused", sr.Error(), map[string]any{"n": sr.N, "contract": sr.Contract, "method": sr.Method, "signers": fmt.Sprint(sr.Signers), "during": "base-state preparation"})
+						WriteEvidence(&Evidence{PropertyID: "C03", Tier: tier, Seed: seed, Level: "model_checking", Violations: 1, Assumptions: BaseAssumptions,
+							Coverage: map[string]any{"evaluations": 1, "distinct_nontrivial": 0, "states": 1, "transitions": 1, "traces_validated_against_impl": 0,
+								"samples": []any{sr.Error()}, "rule": "the check stopped while preparing its base state", "exhaustive": false}})
+						p := WriteReplay("C03", "setup", map[string]any{"tier": tier}, v, sr.Error())
+						fmt.Printf("  %s\n", v.String())
+						fmt.Printf("VIOLATION property=C03 replay=%s\n", p)
+						code = 1
+					}
+				}()
+				return inner.Run(tier, seed)
+			},
+			Replay: func(rf *ReplayFile) (code int) {
+				if rf.Driver != "setup" {
+					return inner.Replay(rf)
+				}
+				defer func() {
+					if r := recover(); r != nil {
+						if sr, ok := r.(SetupRefused); ok {
+							fmt.Printf("replay of C03: %s\nVIOLATION property=C03 replay=(replayed)\n", sr.Error())
+							code = 1
+							return
+						}
+						panic(r)
+					}
+				}()
+				for _, n := range []int{1, 3, 4, 7} {
+					w := NewAuthGrid(n).Build()
+					w.Close()
+				}
+				fmt.Println("replay of C03: the base state is prepared without a refusal on this tree")
+				return 0
+			},
+		}
+	}
 	bfsCheckT("C08", "netmap-history", func(tier string) func() Driver {
 		if tier == "thorough" {
 			return func() Driver { return NewSnapDriver([]int{0, 1, 2, 3, 4, 5, 6, 7, 8, 9, 10, 11, 12}, 30, 2) }
